@@ -98,10 +98,13 @@ HNAME = {'path': (1, 'o'), 'interface': (2, 's'), 'member': (3, 's'), 'error_nam
          'unix_fds': (9, 'u')}
 
 
-def msg(mtype, serial, fields, body_sig=None, body=None, flags=0, le=True, extra=()):
+def msg(mtype, serial, fields, body_sig=None, body=None, flags=0, le=True, extra=(), body_raw=None):
     """fields: list of (name, value) in the order to be written; extra: list of (code, sig, value)
     unknown header fields inserted at the front."""
-    bbytes = enc(body_sig, body, 0, le) if body_sig else b''
+    if body_raw is not None:
+        bbytes = body_raw          # hostile: arbitrary bytes under an arbitrary signature string
+    else:
+        bbytes = enc(body_sig, body, 0, le) if body_sig else b''
     fl = [(code, Variant(sig, value)) for code, sig, value in extra]
     for name, value in fields:
         code, sig = HNAME[name]
